@@ -31,6 +31,7 @@ From FT Require Model.Toggle Proofs.EditInit.
 From FT Require Proofs.CoreTieBundle.
 From FT Require Proofs.EditWFEdge Proofs.EditWFNodeExample.
 From FT Require Model.EditCtor Proofs.EditCtor.
+From FT Require Gen.Accessors_gen Proofs.AccessorsTie.
 Import ListNotations.
 Open Scope Z_scope.
 
@@ -331,6 +332,19 @@ Theorem C07_sessions_from_any_construction : forall r0 posk ctrk clin extra ops,
   forall pre post, ops = pre ++ post -> WF (run (FT.Model.EditCtor.construct_any r0 ctrk clin extra) pre).
 Proof. exact EditCtor.construct_any_session_WF. Qed.
 
+(* ---- the array and attribute accessors under every translated method are themselves generated: Tracks.get_pixels,
+        set_pixels, get_time, get_times, get_node_attr, get_nodes_attr, _set_node_attr, _set_nodes_attr of the model
+        (Model/Edit.v: get_pixels, set_pixels, time_of, attr / zattr, set_node_attr; the primitives the other
+        translators take for granted) equal, on the stated domains, the code translated on every run from
+        data_model/tracks.py (Gen/Accessors_gen.v; translator harness/translate_accessors.py, fail closed: a decorator
+        such as lru_cache, an override in SolutionTracks, a property named segmentation are refused).  Domains:
+        get_pixels - no array, or the node's time is an integer and its frame exists (a missing node / frame raises
+        in Python, the model is total there); set_pixels - no array, or the frame exists and every index lies inside
+        the frame; whatever get_pixels returns lies inside that domain (gen_set_pixels_of_get_pixels).  Not
+        translated: get_position(s) and the set_time / set_position family. ---- *)
+Theorem C07_accessors_are_generated : FT.Proofs.AccessorsTie.accessors_tie_statement.
+Proof. exact FT.Proofs.AccessorsTie.accessors_tie. Qed.
+
 Example C07_ex0_W_seg : seg ex0 = Some sg0 /\ W_seg ex0 /\ ~ In KTime (rp_act (ft ex0)).
 Proof. split; [reflexivity|split; [exact ex0_W_seg|exact (proj1 ex0_cfg)]]. Qed.
 
@@ -428,3 +442,4 @@ Print Assumptions C07_sessions_from_construction.
 Print Assumptions C07_core_is_generated.
 Print Assumptions C07_direct_add_node_refuted.
 Print Assumptions C07_sessions_from_any_construction.
+Print Assumptions C07_accessors_are_generated.
